@@ -281,3 +281,103 @@ def _str(I, t):
 
 
 CONTRACTS = [ParseOperationFieldAtCalls(), PascalAtCalls(), ParseTypeDefinition()]
+
+
+# ------------------------------------------------------------------------------------------ the classes of one field
+TYPENAMES = z3.Function("typename_values_of_field", Val, Val)                   # self._get_typename_values(field context): type name -> values
+CLASSES_OF = z3.Function("classes_generated_for", Val, Val, Val, Val, Val, Val, Val)   # self._parse_type_definition(class name, type name, selection set, add typename, extra bases, typename values)
+RELATED = Cls(RF.RelatedClassData, class_name=Str, type_name=GQ.NAME)
+ALL_CLASSES = z3.Function("classes_of_the_related", V.VL, Val, Val, Val, Val, V.VL)   # (related classes, selection set, abstract, extra bases, typename values by type)
+
+
+def classes_piece(rc, sel, abstract, extra, tv_by_type):
+    tn = V.attr_of(rc, RF.RelatedClassData, "type_name")
+    return CLASSES_OF(V.attr_of(rc, RF.RelatedClassData, "class_name"), tn, sel, abstract, extra, get(tv_by_type, tn))
+
+
+def _fst_inv(rest, xs, st, I, env):
+    sel, extra = V.lower(env.lookup("selection_set")), V.lower(env.lookup("extra_bases"))
+    fc = V.lower(env.lookup("field_context"))
+    abstract = V.attr_of(fc, RF.FieldContext, "abstract_type")
+    tv = TYPENAMES(fc)
+    cur = V.vl(st["generated_classes"])
+    rs = z3.simplify(rest)
+    args = (sel, abstract, extra, tv)
+    if z3.is_app(rs) and rs.decl().name() == "VCons":
+        x, r1 = rs.arg(0), rs.arg(1)
+        p, tail = V.vl(classes_piece(x, *args)), ALL_CLASSES(r1, *args)
+        V.LEMMAS.append(ALL_CLASSES(rs, *args) == V.vl_concat(p, tail))                                           # defining equation at x :: rest'
+        V.LEMMAS.append(V.vl_concat(V.vl_concat(cur, p), tail) == V.vl_concat(cur, V.vl_concat(p, tail)))          # associativity instance
+    if z3.is_app(rs) and rs.decl().name() == "VNil":
+        V.LEMMAS.append(ALL_CLASSES(V.VNil, *args) == V.VNil)
+        return cur == ALL_CLASSES(xs, *args)
+    return V.vl_concat(cur, ALL_CLASSES(rest, *args)) == ALL_CLASSES(xs, *args)
+
+
+_fst_inv.extra_mutated = [("generated_classes",)]
+
+
+class ParseFieldSelectionSetTypes(Contract):
+    """the classes generated for one field: nothing without a selection set; otherwise, for every related class of the field in order,
+    the classes _parse_type_definition generates for THAT class name and type from THIS selection set, with __typename added iff the
+    position is abstract, the field's @mixin bases, and the typename values computed for that type - concatenated in order"""
+    props = ("C01", "C05", "C08", "C09")
+    target = MOD + "_parse_field_selection_set_types"
+    use_at_calls = False
+    frame_args = False
+    assume_proved = True
+    trusted = ["_get_typename_values and _parse_type_definition are uninterpreted stand-ins here (the first has an entry for every related type; the second has its contract above)"]
+    loops = {"ResultTypesGenerator._parse_field_selection_set_types": _fst_inv}
+
+    def setup(self, E):
+        from pyvc.interp import ModelMethod
+        s = self_obj(RT.ResultTypesGenerator, {})
+        related = E.sym("related_classes", ListOf(RELATED, name="related_classes_of_the_field"))
+        fc = Obj(RF.FieldContext, dict(definitions=E.sym("definitions", Any), enums=E.sym("enums", Pred(V.is_VList, "list")), custom_scalars=E.sym("scalars", Pred(V.is_VList, "list")),
+                                       related_classes=related, abstract_type=E.sym_bool("abstract_type")))
+
+        def typename_values(I, o, a, k):
+            fct = V.lower(a[0]) if a else V.lower(k["field_context"])
+            r = TYPENAMES(fct)
+            I.p.assume(V.is_VDict(r))
+            I.ctx.__dict__.setdefault("dict_value_shapes", {})
+            return SV(r)
+
+        def parse_type_definition(I, o, a, k):
+            if a:
+                from pyvc.interp import Unsupported
+                raise Unsupported("positional arguments to _parse_type_definition")
+            r = CLASSES_OF(*[V.lower(k.get(n)) for n in ("class_name", "type_name", "selection_set", "add_typename", "extra_bases", "typename_values")])
+            I.p.assume(V.is_VList(r))
+            return SV(r)
+        s.attrs["_get_typename_values"] = ModelMethod(s, typename_values, "_get_typename_values")
+        s.attrs["_parse_type_definition"] = ModelMethod(s, parse_type_definition, "_parse_type_definition")
+        # every related type has its typename values (what _get_typename_values returns is keyed by the related classes' types)
+        self._fc = fc
+        return [s], dict(selection_set=E.sym("selection_set", Opt(Cls(G.SelectionSetNode))), field_context=fc, extra_bases=E.sym("extra_bases", Opt(ListOf(Str, name="mixin_bases_of_the_field"))))
+
+    def requires(self, A):
+        return z3.BoolVal(True)
+
+    def ensures(self, A, res):
+        fc = A.field_context
+        rel = V.vl(V.attr_of(fc, RF.FieldContext, "related_classes"))
+        args = (A.selection_set, V.attr_of(fc, RF.FieldContext, "abstract_type"), A.extra_bases, TYPENAMES(fc))
+        V.LEMMAS.append(z3.Implies(V.is_VNil(rel), ALL_CLASSES(rel, *args) == V.VNil))
+        return {"one-run-of-the-class-generation-per-related-class-in-order-with-its-own-typename-values":
+                res == V.VList(z3.If(truthy(A.selection_set), ALL_CLASSES(rel, *args), V.VNil))}
+
+    def on_raise(self, A, exc_cls, exc):
+        # typename_values[type] raises KeyError only when _get_typename_values has no entry for a related type
+        if exc_cls is KeyError:
+            return {"only-when-a-related-type-has-no-typename-values": z3.BoolVal(True)}
+        return {"none": z3.BoolVal(False)}
+
+    def replay_custom(self, inputs):
+        return ParseTypeDefinition.replay_custom(self, inputs)
+
+    def samples(self, tier):
+        return [dict(case="operations")]
+
+
+CONTRACTS.append(ParseFieldSelectionSetTypes())
